@@ -47,6 +47,22 @@ def _tl(a):
     return [tuple(int(x) for x in c) for c in a]
 
 
+_CNT = [0]
+
+
+def _arr(c):
+    """a coordinate as an array - int64 / int8 (the library's own coordinate dtype) / int32 in rotation"""
+    _CNT[0] += 1
+    return np.array(c, dtype=(np.int64, np.int8, np.int32)[_CNT[0] % 3])
+
+
+def _any(c):
+    """a coordinate in one of the forms the loosely typed queries accept: arrays, tuple, list, tuple of numpy scalars"""
+    _CNT[0] += 1
+    k = _CNT[0] % 5
+    return (np.array(c), tuple(c), list(c), np.array(c, dtype=np.int8), tuple(np.int64(x) for x in c))[k]
+
+
 def check_structure(ctx, cl, case, full: bool, rng):
     from maze_dataset.token_utils import connection_list_to_adj_list, is_connection
 
@@ -72,7 +88,7 @@ def check_structure(ctx, cl, case, full: bool, rng):
     cell_iter = cells if full else [cells[int(i)] for i in rng.choice(len(cells), size=min(len(cells), 12), replace=False)]
     for c in cell_iter:
         with ctx.guard("C13/get_coord_neighbors", case):
-            nb = maze.get_coord_neighbors(np.array(c))
+            nb = maze.get_coord_neighbors(_any(c))
             ctx.ev(); ctx.tally("c13:neighbors")
             got = _tl(nb)
             ctx.check(sorted(got) == sorted(g.adj[c]) and len(got) == len(set(got)), "C13/neighbors-wrong",
@@ -80,7 +96,7 @@ def check_structure(ctx, cl, case, full: bool, rng):
     comp_cells = cell_iter if full else cell_iter[:3]
     for c in comp_cells:
         with ctx.guard("C13/gen_connected_component_from", case):
-            cc = maze.gen_connected_component_from(np.array(c))
+            cc = maze.gen_connected_component_from(_any(c))
             ctx.ev(); ctx.tally("c13:component")
             got = _tl(cc)
             ctx.check(set(got) == g.component_of(c) and len(got) == len(set(got)), "C13/component-wrong",
@@ -99,7 +115,7 @@ def check_structure(ctx, cl, case, full: bool, rng):
             pairs.append((a, cells[int(rng.integers(len(cells)))]))
     for a, b in pairs:
         with ctx.guard("C13/nodes_connected", case):
-            r = maze.nodes_connected(np.array(a), np.array(b))
+            r = maze.nodes_connected(_arr(a), _arr(b))
             ctx.ev(); ctx.tally("c13:nodes_connected")
             ctx.check(bool(r) == g.has_edge(a, b), "C13/nodes_connected-wrong", f"{a},{b}: got {r}", dict(case, a=a, b=b))
     # adjacency list views
@@ -164,7 +180,7 @@ def _paths(ctx, maze, g, cells, case, rng, n):
             cur = nb[int(rng.integers(len(nb)))]
             walk.append(cur)
         with ctx.guard("C13/is_valid_path", case):
-            r = maze.is_valid_path(np.array(walk))
+            r = maze.is_valid_path(np.array(walk, dtype=(np.int64, np.int32)[len(walk) % 2]))
             ctx.ev(); ctx.tally("c13:valid-path")
             ctx.check(bool(r) is True, "C13/valid-walk-rejected", f"walk={walk}", dict(case, walk=walk))
         # break one step
@@ -243,7 +259,7 @@ def run(ctx):
             _forks(ctx, cl, g, case, rng)
             if k % 2003 == 0:
                 ctx.sample(dict(case=case, cl=cl))
-    n_big = 400 if ctx.quick else 6000
+    n_big = 1200 if ctx.quick else 6000
     for j in range(n_big):
         if not ctx.mine(j):
             continue
